@@ -399,6 +399,14 @@ class Check:
     # -- phases
     def prepare(self):
         self.proof = build_and_audit(self.prop_files, leanchecker=(self.tier == "thorough" and os.environ.get("VERIF_LEANCHECKER", "1") == "1"))
+        # change-directed search: literals the source has gained since the model was aligned go into every generator
+        try:
+            import gen
+            import literals
+            self.new_literals = literals.new()
+            gen.inject(self.new_literals)
+        except Exception as e:  # noqa: BLE001
+            self.new_literals = [f"(unavailable: {e})"]
         if self.proof.driver_ok:
             self.driver = Driver()
             if self.tier == "thorough" and os.environ.get("VERIF_INTERP", "1") == "1":
@@ -592,6 +600,7 @@ class Check:
             "distribution": self.tags,
             "exhaustive_scopes": self.exhaustive_scopes,
             "changed_functions": self.changed_functions(),
+            "new_source_literals": getattr(self, "new_literals", []),
             "known_findings_seen": self.known_seen,
             "translator_problems": pr.translate_info.get("problems", []),
             "translator_notes": pr.translate_info.get("notes", []),
